@@ -432,8 +432,8 @@ def selftest(props):
         for rep in range(3):
             for gmp in (1, 4, 16):
                 jobs.append({"mode": "explore", "property": prop, "thorough": False, "base_seed": 424242, "first": 0, "stride": 1,
-                             "max_runs": 12, "budget_sec": 600, "gomaxprocs": gmp})
-        out, rundir = run_workers(jobs, 1500)
+                             "max_runs": int(os.environ.get("SELFTEST_RUNS", "12")), "budget_sec": 1200, "gomaxprocs": gmp})
+        out, rundir = run_workers(jobs, 3000)
         by = {}
         for job, results, rc, log in out:
             for r in results:
